@@ -246,7 +246,13 @@ Proof.
   destruct (m =? 1); [apply Hsame|].
   destruct (m =? 2).
   { unfold call_delete. cbn [d_delete_interchain cfg_fixed]. intro H. inversion H; subst. left. reflexivity. }
-  destruct (m =? 3); [apply Hsame|].
+  destruct (m =? 3).
+  { unfold call_register. destruct (svc_lookup w a) as [s|].
+    - destruct (is_local s).
+      + destruct (i_rec (s_ic st) a) eqn:E; intro H; inversion H; subst; simpl; [left; reflexivity|].
+        right. exists a. auto.
+      + intro H. inversion H; subst. left. reflexivity.
+    - destruct (w_audit w); intro H; inversion H; subst; left; reflexivity. }
   destruct (m =? 4); [apply Hsame|]. destruct (m =? 5); [apply Hsame|].
   destruct ((m =? 6) || (m =? 7)); [apply Hsame|]. destruct (m =? 8); [apply Hsame|].
   destruct (m =? 9); apply Hsame.
